@@ -16,6 +16,21 @@ import (
 
 func TestMain(m *testing.M) { vt.Main(m) }
 
+// newC creates a collector.  When the process was not started by the driver
+// (go test by hand, native fuzzing) the listed findings of this package are
+// read from its own KNOWN.txt.
+func newC(check string) *vt.C {
+	if os.Getenv("VT_KNOWN") == "" {
+		for _, p := range []string{"KNOWN.txt", os.Getenv("VT_ROOT") + "/harness/c14/KNOWN.txt", "/verif/harness/c14/KNOWN.txt"} {
+			if _, err := os.Stat(p); err == nil {
+				os.Setenv("VT_KNOWN", p)
+				break
+			}
+		}
+	}
+	return vt.New("C14", check)
+}
+
 // Script is one differential case: a container shape, two secret assignments
 // for its slots, and the rendering paths to push both instantiations through.
 type Script struct {
@@ -37,6 +52,23 @@ func (s *Script) valid() bool {
 			}
 		}()
 		ok = validSecrets(s.S1, s.S2, slots(s.Shape))
+		if ok && s.Shape.info().multiOmap {
+			// entries of a map keyed by secrets are printed in an order that depends
+			// on the secrets; they must render identically, so no slot may be
+			// empty (omitempty would tell entries apart)
+			// … and no two secrets may be equal (nested secret-keyed maps would
+			// collapse differently from entry to entry)
+			for j, x := range s.S1 {
+				if len(x) == 0 {
+					ok = false
+				}
+				for i := 0; i < j; i++ {
+					if string(s.S1[i]) == string(x) {
+						ok = false
+					}
+				}
+			}
+		}
 	}()
 	return ok
 }
@@ -84,6 +116,9 @@ func markerPath(p PathSpec, label string, si *shapeInfo) bool {
 		if printFamily[p.V] {
 			return true
 		}
+		if p.V == "freeform" {
+			return false
+		}
 		if p.V == "extra" {
 			return false // %!(EXTRA type=value) prints the type name
 		}
@@ -115,8 +150,9 @@ func evalScript(c *vt.C, s *Script, each func(p PathSpec, si *shapeInfo, nonEmpt
 		needles2 = append(needles2, needles(s.S2[j])...)
 	}
 	b := newBuilder()
+	var cleanV any // clean instantiation, built on first use
 	fail := func(p PathSpec, sig, format string, args ...any) *verdict {
-		if strings.HasPrefix(sig, "leak/fmt/") && badVerbZone(p, s.Shape, si) {
+		if strings.HasPrefix(sig, "leak/") && sig != "leak/json/map-key" && badVerbZone(p, s.Shape, si, &cleanV) {
 			sig = "leak/fmt/bad-verb"
 		}
 		return &verdict{f: vt.Failf(sig, "%s on shape %s: %s", p, si.sig, fmt.Sprintf(format, args...)),
@@ -142,7 +178,17 @@ func evalScript(c *vt.C, s *Script, each func(p PathSpec, si *shapeInfo, nonEmpt
 
 	v1 := b.instantiate(s.Shape, s.S1).Interface()
 	outs1 := make([][]out, len(s.Paths))
+	skip := make([]bool, len(s.Paths))
 	for i, p := range s.Paths {
+		if p.K == "xml" && si.xmlIfaceText {
+			// encoding/xml does not consult TextMarshaler for attribute/chardata
+			// fields typed as interface, **T or slices; XML is not among the
+			// renderings the property names, so the shape is outside the domain
+			// for this path
+			c.Exclude("xml-attr-or-chardata-field-not-T-or-*T")
+			skip[i] = true
+			continue
+		}
 		outs1[i] = render(p, v1, si)
 	}
 	// oracle (1'): exact marker for the interface methods of every opaque leaf
@@ -176,18 +222,18 @@ func evalScript(c *vt.C, s *Script, each func(p PathSpec, si *shapeInfo, nonEmpt
 		vp := pb.instantiate(s.Shape, s.S1).Interface()
 		checked := false
 		for i, p := range s.Paths {
-			if !markerPath(p, "out", si) && p.K != "confmap" {
+			if skip[i] || (!markerPath(p, "out", si) && p.K != "confmap") {
 				continue
 			}
 			op := render(p, vp, si)
-			if len(op) != len(outs1[i]) {
-				if v := soft(fail(p, "marker/"+sigFor(p, "", si), "%d outputs, the plain-marker container gives %d", len(outs1[i]), len(op))); v != nil {
-					return v
-				}
+			if len(op) != len(outs1[i]) || hasPanic(op) || hasPanic(outs1[i]) {
+				// a library rejected one of the two types (e.g. yaml ",inline" wants
+				// map[string]…): error texts name the types, nothing to compare
+				c.Class("oracle:marker-model-skipped-error")
 				continue
 			}
 			for k := range op {
-				if !markerPath(p, op[k].label, si) {
+				if !markerPath(p, op[k].label, si) || op[k].label == "err" || op[k].label != outs1[i][k].label {
 					continue
 				}
 				checked = true
@@ -207,6 +253,9 @@ func evalScript(c *vt.C, s *Script, each func(p PathSpec, si *shapeInfo, nonEmpt
 
 	v2 := b.instantiate(s.Shape, s.S2).Interface() // refills the same allocations in place
 	for i, p := range s.Paths {
+		if skip[i] {
+			continue
+		}
 		if each != nil {
 			each(p, si, nonEmpty)
 		}
@@ -233,6 +282,9 @@ func evalScript(c *vt.C, s *Script, each func(p PathSpec, si *shapeInfo, nonEmpt
 			continue
 		}
 		for k := range o1 {
+			if o1[k].scanOnly() && o2[k].scanOnly() {
+				continue
+			}
 			if o1[k].text != o2[k].text || o1[k].label != o2[k].label {
 				if v := soft(fail(p, "leak/"+sigFor(p, o1[k].label, si), "output %q depends on the secret: %s with assignment 1, %s with assignment 2",
 					o1[k].label, excerpt(o1[k].text), excerpt(o2[k].text))); v != nil {
@@ -243,6 +295,15 @@ func evalScript(c *vt.C, s *Script, each func(p PathSpec, si *shapeInfo, nonEmpt
 		}
 	}
 	return nil
+}
+
+func hasPanic(os []out) bool {
+	for _, o := range os {
+		if o.label == "panic" {
+			return true
+		}
+	}
+	return false
 }
 
 func scriptKey(s *Script) string {
@@ -304,7 +365,7 @@ func runWith(c *vt.C) func(Script) (bool, string, *vt.Finding) {
 
 // ---- random composition ----
 
-var cCompose = vt.New("C14", "compose")
+var cCompose = newC("compose")
 
 func genFlags(t *rapid.T) string {
 	var sb strings.Builder
@@ -316,9 +377,24 @@ func genFlags(t *rapid.T) string {
 	return sb.String()
 }
 
+// genFormat draws a whole format string over the alphabet of fmt's directive
+// syntax (several directives, explicit argument indexes, stars, stray runes).
+func genFormat(t *rapid.T) string {
+	pieces := []string{"%", "%", "%", "v", "s", "q", "x", "X", "T", "+", "#", "-", "0", " ", ".", "*", "[1]", "[2]", "[3]", "[4]", "[0]", "[", "]", "1", "2", "9", "12", "%%", "%!", "(", ")", "é", "d", "p", "w", "|", "\n"}
+	n := rapid.IntRange(1, 12).Draw(t, "npieces")
+	var sb strings.Builder
+	for i := 0; i < n; i++ {
+		sb.WriteString(rapid.SampledFrom(pieces).Draw(t, "piece"))
+	}
+	return sb.String()
+}
+
 func genFmtPath(t *rapid.T) PathSpec {
-	if rapid.IntRange(0, 7).Draw(t, "printfamily") == 0 {
+	switch rapid.IntRange(0, 9).Draw(t, "printfamily") {
+	case 0:
 		return PathSpec{K: "fmt", V: rapid.SampledFrom(printWrappers).Draw(t, "wrapper")}
+	case 1:
+		return PathSpec{K: "fmt", V: "freeform", Flags: genFormat(t)}
 	}
 	p := PathSpec{K: "fmt", V: "sprintf"}
 	if rapid.Bool().Draw(t, "otherwrapper") {
@@ -351,27 +427,42 @@ func genFmtPath(t *rapid.T) PathSpec {
 
 var others = otherPaths()
 
+// othersByKind groups the non-fmt paths so that the generator can pick a
+// mechanism first and a variant second (zap alone has 30 variants).
+var otherKinds, othersByKind = func() ([]string, map[string][]PathSpec) {
+	m := map[string][]PathSpec{}
+	var ks []string
+	for _, p := range others {
+		if _, ok := m[p.K]; !ok {
+			ks = append(ks, p.K)
+		}
+		m[p.K] = append(m[p.K], p)
+	}
+	return ks, m
+}()
+
 func genScript(t *rapid.T) Script {
 	s := Script{Shape: genShape(t, 14)}
-	s.S1, s.S2 = genSecrets(t, slots(s.Shape))
+	s.S1, s.S2 = genSecrets(t, slots(s.Shape), !s.Shape.info().multiOmap)
 	nf := rapid.IntRange(1, 6).Draw(t, "nfmt")
 	for i := 0; i < nf; i++ {
 		s.Paths = append(s.Paths, genFmtPath(t))
 	}
 	no := rapid.IntRange(1, 5).Draw(t, "nother")
 	for i := 0; i < no; i++ {
-		s.Paths = append(s.Paths, rapid.SampledFrom(others).Draw(t, "other"))
+		k := rapid.SampledFrom(otherKinds).Draw(t, "otherkind")
+		s.Paths = append(s.Paths, rapid.SampledFrom(othersByKind[k]).Draw(t, "other"))
 	}
 	return s
 }
 
 func TestCompose(t *testing.T) {
-	vt.Run(t, cCompose, vt.N(12000, 600000), genScript, runWith(cCompose))
+	vt.Run(t, cCompose, vt.N(36000, 2400000), genScript, runWith(cCompose))
 }
 
 // ---- deterministic sweep ----
 
-var cSweep = vt.New("C14", "sweep")
+var cSweep = newC("sweep")
 
 func shardOf() (shard, shards int) {
 	shards, _ = strconv.Atoi(os.Getenv("VT_SHARDS"))
@@ -412,6 +503,10 @@ func TestSweep(t *testing.T) {
 			s.S1, s.S2 = sweepSecrets(kind, n)
 			s.Paths = append(append([]PathSpec{}, grid...), rest...)
 			if !s.valid() {
+				if strings.Contains(kind, "empty") && s.Shape.info().multiOmap {
+					cSweep.Exclude("empty-secret-under-multi-entry-secret-keyed-map")
+					continue
+				}
 				cSweep.Inconclusive("sweep built a malformed script for %s/%s", sh.name, kind)
 				t.Fatalf("malformed sweep script %s/%s", sh.name, kind)
 			}
@@ -434,9 +529,15 @@ func fullGrid() []PathSpec {
 	flags := allFlagSets()
 	for _, verb := range fmtVerbs + fmtBadVerbs {
 		for _, fl := range flags {
-			for _, w := range fmtWidths {
-				for _, pr := range fmtPrecs {
-					ps = append(ps, PathSpec{K: "fmt", V: "sprintf", Verb: string(verb), Flags: fl, Width: w, Prec: pr})
+			if stringVerb(string(verb)) || verb == 'T' {
+				for _, w := range fmtWidths {
+					for _, pr := range fmtPrecs {
+						ps = append(ps, PathSpec{K: "fmt", V: "sprintf", Verb: string(verb), Flags: fl, Width: w, Prec: pr})
+					}
+				}
+			} else { // fmt rejects these verbs for strings: a thinner width x precision grid
+				for _, wp := range [][2]string{{"", ""}, {"3", ".0"}, {"14", ".3"}, {"*", ".*"}, {"", ".25"}} {
+					ps = append(ps, PathSpec{K: "fmt", V: "sprintf", Verb: string(verb), Flags: fl, Width: wp[0], Prec: wp[1]})
 				}
 			}
 			for _, wr := range fmtfWrappers[1:] {
